@@ -101,6 +101,33 @@ def gen_consts():
     lines.append("Definition go_Version : list N := [%s]." % "; ".join(str(x) for x in ver.encode()))
     for name, val in comps:
         lines.append("Definition go_%s : list N := [%s]." % (name, "; ".join(str(x) for x in val.encode())))
+    # further constants the model copies: the makeSafe limit, the default chunk size, the ROS primitive list and definition
+    # separator, the bag magic, and the Python package's opcode table, magic, record size limit and MAGIC_SIZE
+    L = lambda bs: "[%s]" % "; ".join(str(x) for x in bs)
+    m = re.search(r"func makeSafe\(n uint64\)[^{]*\{\s*if n < math\.(\w+)", src)
+    lines.append("Definition go_makeSafe_limit : N := %d." % {"MaxInt32": 2**31 - 1, "MaxUint32": 2**32 - 1, "MaxInt64": 2**63 - 1}.get(m.group(1) if m else "", 0))
+    wsrc = open(os.path.join(REPO, "go/mcap/writer.go")).read()
+    m = re.search(r"if opts\.ChunkSize == 0 \{\s*opts\.ChunkSize = ([0-9 *]+)", wsrc)
+    lines.append("Definition go_default_chunk_size : N := %d." % (eval(m.group(1)) if m else 0))
+    csrc = open(os.path.join(REPO, "go/ros/constants.go")).read()
+    prims = re.findall(r'^\s*"(\w+)":\s*true', csrc, re.M)
+    lines.append("Definition go_ros_primitives : list (list N) := [%s]." % "; ".join(L(p_.encode()) for p_ in prims))
+    m = re.search(r'MessageDefinitionSeparator = \[\]byte\(\s*"((?:[^"\\]|\\.)*)"', csrc)
+    lines.append("Definition go_ros_separator : list N := %s." % L(m.group(1).encode().decode("unicode_escape").encode() if m else b""))
+    bsrc = open(os.path.join(REPO, "go/ros/bag2mcap.go")).read()
+    m = re.search(r'BagMagic\s*=\s*\[\]byte\("((?:[^"\\]|\\.)*)"\)', bsrc)
+    lines.append("Definition go_bag_magic : list N := %s." % L(m.group(1).encode().decode("unicode_escape").encode() if m else b""))
+    psrc = open(os.path.join(REPO, "python/mcap/mcap/opcode.py")).read()
+    pops = re.findall(r"^\s*([A-Z_]+)\s*=\s*(0x[0-9A-Fa-f]+)", psrc, re.M)
+    for name, val in pops:
+        lines.append("Definition py_op_%s : N := %d." % (name, int(val, 16)))
+    ssrc = open(os.path.join(REPO, "python/mcap/mcap/stream_reader.py")).read()
+    m = re.search(r"magic != \(([0-9, ]+)\)", ssrc)
+    lines.append("Definition py_magic : list N := %s." % L([int(x) for x in m.group(1).split(",")] if m else []))
+    m = re.search(r"MAGIC_SIZE = (\d+)", ssrc)
+    lines.append("Definition py_magic_size : N := %s." % (m.group(1) if m else "0"))
+    m = re.search(r"record_size_limit: Optional\[int\] = \(?([0-9 *]+)\)?", ssrc)
+    lines.append("Definition py_record_size_limit : N := %d." % (eval(m.group(1)) if m else 0))
     text = "\n".join(lines) + "\n"
     path = os.path.join(COQ, "theories", "Consts_gen.v")
     old = open(path).read() if os.path.exists(path) else None
